@@ -842,8 +842,79 @@ fn run_case(c: &Case, rec: &mut Rec) -> CaseResult {
     Ok(())
 }
 
+/// libFuzzer entry (target `fz_frontdoor`): four header octets choose the catalog (bit i of the
+/// first octet = ORIGINS[i], a second mask says which of them are chained), one deny and one allow
+/// prefix (or none), the source and the transport; the rest is the request, presented to the front
+/// door as `Req::Random` and judged by the same oracle as every generated request (`run_case`,
+/// including the probe that follows a hostile request).
+pub fn fuzz_one(data: &[u8]) -> CaseResult {
+    if data.len() < 4 {
+        return Ok(());
+    }
+    let (zmask, chmask, acl, s) = (data[0], data[1], data[2], data[3]);
+    let zones: Vec<ZoneCfg> = (0..8)
+        .filter(|i| zmask & (1 << i) != 0)
+        .map(|i| ZoneCfg { origin: ORIGINS[i].to_string(), chained: chmask & (1 << i) != 0 })
+        .collect();
+    if zones.is_empty() || zones.len() > 5 {
+        return Ok(());
+    }
+    let nets: Vec<&str> = [&NETS_V4[..], &NETS_V6[..]].concat();
+    let pick = |n: u8| -> Vec<String> {
+        let n = n as usize;
+        if n == 0 || n > nets.len() {
+            Vec::new()
+        } else {
+            vec![nets[n - 1].to_string()]
+        }
+    };
+    let c = Case {
+        zones,
+        deny: pick(acl & 0x0f),
+        allow: pick(acl >> 4),
+        reqs: vec![ReqCase {
+            src: SOURCES[(s & 0x0f) as usize % SOURCES.len()].to_string(),
+            port: 4000 + (s >> 5) as u16,
+            tcp: s & 0x10 != 0,
+            req: Req::Random(data[4..].to_vec()),
+        }],
+    };
+    let mut rec = Rec::default();
+    run_case(&c, &mut rec)
+}
+
+fn fuzz_seeds() -> Vec<Vec<u8>> {
+    use proptest::strategy::{Strategy, ValueTree};
+    let mut runner = proptest::test_runner::TestRunner::new_with_rng(
+        proptest::test_runner::Config { failure_persistence: None, ..Default::default() },
+        proptest::test_runner::TestRng::from_seed(proptest::test_runner::RngAlgorithm::ChaCha, &[11u8; 32]),
+    );
+    let strat = req();
+    let mut out = Vec::new();
+    let heads: [[u8; 4]; 6] = [[0x02, 0, 0, 0x05], [0x3e, 0x04, 0, 0x15], [0xc3, 0x01, 0x01, 0x00], [0x06, 0, 0x20, 0x03], [0x01, 0, 0x71, 0x06], [0x12, 0x10, 0xb0, 0x1b]];
+    for i in 0..90 {
+        if let Ok(t) = strat.new_tree(&mut runner) {
+            let (bytes, _) = render(&t.current());
+            if bytes.len() <= 2048 {
+                let mut v = heads[i % heads.len()].to_vec();
+                v.extend_from_slice(&bytes);
+                out.push(v);
+            }
+        }
+    }
+    out
+}
+
 pub fn check() -> Option<Check> {
     let frontdoor = prop("frontdoor", 300_000, 3_000_000, case_strategy, run_case);
+    let fuzz: Box<dyn crate::core::Sub> = Box::new(crate::core::FuzzSub {
+        name: "fz_frontdoor",
+        target: "fz_frontdoor",
+        runs_thorough: 4_000_000,
+        max_len: 4_096,
+        oracle: fuzz_one,
+        seeds: fuzz_seeds,
+    });
     Some(Check {
         id: "C11",
         level: "exploration",
@@ -853,8 +924,9 @@ pub fn check() -> Option<Check> {
             "RCODE is a member of the set of codes whose condition holds (the statement fixes no precedence); the zone's own answer is pinned only for TXT/IN marker queries (apex, www, names whose closest encloser is the apex); other QUERY/UPDATE answers are C10/C12's subject and only counted, ID, QR and question are checked",
             "question echo is required for QUERY and UPDATE whose question section parses; for other opcodes only ID/QR/RCODE",
             "sources have a non-zero port and are neither unspecified nor broadcast (the socket loops drop those before the front door)",
+            "fz_frontdoor (thorough tier: libFuzzer campaign; quick tier: its seed corpus through the same oracle): one request of at most 4 KB per front door, catalog / one deny prefix / one allow prefix / source / transport chosen by four leading octets, judged by the oracle of the frontdoor sub-property",
             "access rules as documented in crates/server/src/access.rs; where the text does not say whether 'no entries' is per address family both outcomes are accepted (gate 'maybe-denied')",
         ],
-        subs: vec![frontdoor, crate::checks::c17::idle_wrapper_sub("tcp_read_loop_idle_wrapper", 30_000, 1_000_000)],
+        subs: vec![frontdoor, crate::checks::c17::idle_wrapper_sub("tcp_read_loop_idle_wrapper", 30_000, 1_000_000), fuzz],
     })
 }
